@@ -57,9 +57,14 @@ type PartitionLog struct {
 	indexEntries map[int64][]*IndexEntry
 	prefetchMu   sync.Mutex
 	mu           sync.Mutex
-	flushCond    *sync.Cond
-	s3sem        *semaphore.Weighted
-	flushing     bool
+	// publishMu serializes onFlush callbacks and published is the highest end
+	// offset handed to one, so a slow callback of an earlier flush can never
+	// overwrite the offset published by a later flush.
+	publishMu sync.Mutex
+	published int64
+	flushCond *sync.Cond
+	s3sem     *semaphore.Weighted
+	flushing  bool
 	// flushingBatches holds the batches drained by prepareFlush but not yet
 	// committed to a segment by uploadFlush. During that window an acknowledged
 	// offset is in neither the live buffer (drained) nor l.segments (not yet
@@ -97,6 +102,7 @@ func NewPartitionLog(namespace string, topic string, partition int32, startOffse
 		segments:     make([]segmentRange, 0),
 		indexEntries: make(map[int64][]*IndexEntry),
 		s3sem:        sem,
+		published:    -1,
 	}
 	pl.flushCond = sync.NewCond(&pl.mu)
 	return pl
@@ -261,11 +267,24 @@ func (l *PartitionLog) AppendBatch(ctx context.Context, batch RecordBatch) (*App
 		if err := l.uploadFlush(ctx, artifact); err != nil {
 			return nil, err
 		}
-		if l.onFlush != nil {
-			l.onFlush(ctx, artifact)
-		}
+		l.publishFlush(ctx, artifact)
 	}
 	return result, nil
+}
+
+// publishFlush reports a flushed end offset through onFlush. Callbacks run one
+// at a time and never for an offset lower than one already published.
+func (l *PartitionLog) publishFlush(ctx context.Context, artifact *SegmentArtifact) {
+	if l.onFlush == nil || artifact == nil {
+		return
+	}
+	l.publishMu.Lock()
+	defer l.publishMu.Unlock()
+	if artifact.LastOffset < l.published {
+		return
+	}
+	l.published = artifact.LastOffset
+	l.onFlush(ctx, artifact)
 }
 
 // BufferedHighWatermark returns the in-memory high-watermark: one past the last
@@ -330,9 +349,7 @@ func (l *PartitionLog) Flush(ctx context.Context) error {
 				target = &SegmentArtifact{LastOffset: current}
 			}
 		}
-		if target != nil {
-			l.onFlush(ctx, target)
-		}
+		l.publishFlush(ctx, target)
 	}
 	return nil
 }
